@@ -90,7 +90,8 @@ type task struct {
 	site   int
 	fn     func()
 	panicV interface{}
-	pickN  int // > 0: the task asks the scheduler to choose among pickN alternatives (Pick)
+	wantW  bool // blocked in Lock (a writer waiting): sync.RWMutex lets no new reader in meanwhile
+	pickN  int  // > 0: the task asks the scheduler to choose among pickN alternatives (Pick)
 	pickK  int
 }
 
@@ -412,8 +413,25 @@ func Lock(x interface{}, site int) {
 	}
 	Yield(site)
 	for !l.(tryLocker).TryLock() {
+		t.wantW = true
 		blockOn(t, addr)
 	}
+	t.wantW = false
+}
+
+// writerWaiting: is another task blocked in Lock on this mutex?  sync.RWMutex refuses new readers while a writer
+// waits (writer preference); a reader that would sneak past a waiting writer is a schedule the runtime never
+// produces, and lock-order cycles that exist only because of that rule (reader A holds RLock and wants M, writer
+// waits for A, reader B holds M and wants RLock) are real deadlocks.
+//
+//go:norace
+func writerWaiting(t *task, addr uintptr) bool {
+	for _, o := range cur.tasks {
+		if o != t && o.state == stBlocked && o.waitOn == addr && o.wantW {
+			return true
+		}
+	}
+	return false
 }
 
 // RLock replaces X.RLock().
@@ -425,7 +443,14 @@ func RLock(x interface{}, site int) {
 		return
 	}
 	Yield(site)
-	for !l.(tryRLocker).TryRLock() {
+	for {
+		if writerWaiting(t, addr) {
+			blockOn(t, addr)
+			continue
+		}
+		if l.(tryRLocker).TryRLock() {
+			return
+		}
 		blockOn(t, addr)
 	}
 }
